@@ -215,7 +215,7 @@ def run(ctx):
     recs_h, summ_h = ex.explore(eng, harness_hist, {'L': L, 'seed': ctx.seed, 'timeout_ms': 10000, 'step_limit': 2000000}, prepare=prepare_none)
     # (b) symbolic tables
     tpls = [t for t in c02.templates(ctx.tier) if t[0] in ('F1-chain', 'F2-mixed')]
-    recs_t, summ_t = ex.explore(eng, c02.harness, {'templates': tpls, 'seed': ctx.seed, 'timeout_ms': 10000, 'step_limit': 400000}, prepare=c02.prepare)
+    recs_t, summ_t = ex.explore(eng, c02.harness, {'templates': tpls, 'seed': ctx.seed, 'timeout_ms': 10000, 'step_limit': 400000, 'rereg': ('F1-chain',)}, prepare=c02.prepare)
     # (a) kani
     kres = kani_adapter.run_group('C08', ctx.tier)
     inconclusive = []
